@@ -308,6 +308,7 @@ func DataWalk(p *core.Prog, r *core.Report) {
 				})
 				// the key carries the identity of both containers
 				nPtr := 0
+				var ptrOf []ssa.Value
 				var walk func(v ssa.Value, d int)
 				walk = func(v ssa.Value, d int) {
 					if v == nil || d > 8 {
@@ -315,7 +316,18 @@ func DataWalk(p *core.Prog, r *core.Report) {
 					}
 					if c, ok := v.(*ssa.Call); ok {
 						if h := core.StaticCallee(c); h != nil && (core.QualName(h) == "reflect.Value.Pointer" || core.QualName(h) == "reflect.Value.UnsafePointer") {
-							nPtr++
+							// of two different containers: the identity of one of them taken twice makes every later
+							// partner of that container "seen"
+							fresh := true
+							for _, o := range ptrOf {
+								if o == c.Call.Args[0] {
+									fresh = false
+								}
+							}
+							if fresh {
+								ptrOf = append(ptrOf, c.Call.Args[0])
+								nPtr++
+							}
 							return
 						}
 					}
